@@ -68,7 +68,7 @@ def main() -> None:
             with open(name, "w", encoding="utf8") as f:
                 f.write(text)
             os.utime(name, (clock, clock))
-        emit({"start": i, "t": time.time()})
+        emit({"start": i, "t": time.time(), "cpu": time.process_time()})
         instrument.reset()
         restarted = False
         resp = exc = None
